@@ -93,6 +93,21 @@ theorem C12_downstream_no_nil_value (abs : Abs) (env : Env) (req : SetReq) (tx :
   obtain ⟨_, acc⟩ := setPre_accepted abs env req tx hok
   exact acc.valid
 
+/-- prefix `t1:/c[k]=1]` (an element `c` whose key name is `k]`), JSON update of the root with member `/d` -/
+def wTreeSet : SetReq :=
+  ⟨some ⟨"t1".toList, [⟨"c".toList, [("k]".toList, "1".toList)]⟩], []⟩, [], [],
+   [⟨some ⟨[], [], []⟩, some (.json (.flat [("/d".toList, "jv".toList)]))⟩], []⟩
+
+/-- The full downstream statement ("whatever Set stores, the controllers can process") fails: the
+    JSON-valued update lands on `/c[k]=1]/d`, a valid path text that is accepted and logged, and
+    `tree.addPathToTree` slices `keyString[eqIdx+1:brktIdx2]` with `]` before `=`
+    (known finding KF-C12-tree-slice). -/
+theorem C12_downstream_tree_full_fails :
+    (match setPre concreteAbs wEnv wTreeSet with
+     | .ok tx => tx.pairs == [("t1".toList, "/c[k]=1]/d".toList)] && !downstreamOK tx
+     | .error _ => false) = true := by
+  set_option maxRecDepth 1000000 in decide
+
 /-! ## Get -/
 
 /-- Get (the part that holds): no request makes `Get` panic before the stored values are read —
